@@ -88,6 +88,12 @@ func (d *deepView) byteSeq(v ssa.Value, fr *frame, depth int) ([]bseg, bool) {
 		if x.Low != nil {
 			lo = d.affine(x.Low, r.fr, nil, 0)
 		}
+		// buf[:0]: an empty prefix (make([]byte, 0, n) lowers to this)
+		if x.High != nil {
+			if h := d.affine(x.High, r.fr, nil, 0); h.isConst() && h.K == 0 && lo.isConst() && lo.K == 0 {
+				return nil, true
+			}
+		}
 		// the full slice of a local array: packed buffer
 		if a, ok := x.X.(*ssa.Alloc); ok && x.High == nil && lo.isConst() && lo.K == 0 {
 			if arr, isArr := a.Type().Underlying().(*types.Pointer).Elem().Underlying().(*types.Array); isArr && binarySize(arr.Elem()) == 1 {
@@ -106,7 +112,18 @@ func (d *deepView) byteSeq(v ssa.Value, fr *frame, depth int) ([]bseg, bool) {
 				}
 			}
 		}
-		inner, ok := d.byteSeq(x.X, r.fr, depth+1)
+		var inner []bseg
+		var ok bool
+		if a, isA := x.X.(*ssa.Alloc); isA {
+			// a region of a local packing array
+			arr, isArr := a.Type().Underlying().(*types.Pointer).Elem().Underlying().(*types.Array)
+			if !isArr || binarySize(arr.Elem()) != 1 {
+				return nil, false
+			}
+			inner, ok = d.packedSeqArray(dval{a, r.fr}, arr.Len(), depth)
+		} else {
+			inner, ok = d.byteSeq(x.X, r.fr, depth+1)
+		}
 		if !ok {
 			return nil, false
 		}
